@@ -102,6 +102,9 @@ structure SpotOrderObs where
   denom : String
   amount : Int
   escrow : String
+  rate : Int := 0
+  base : String := ""
+  quote : String := ""
 deriving Repr, Inhabited
 
 structure PerpOrderObs where
@@ -110,6 +113,8 @@ structure PerpOrderObs where
   denom : String
   amount : Int
   escrow : String
+  rate : Int := 0
+  long : Bool := true
 deriving Repr, Inhabited
 
 structure Snapshot where
@@ -140,6 +145,8 @@ structure Snapshot where
   rewardPools : List RewardPoolObs := []
   spotOrders : List SpotOrderObs := []
   perpOrders : List PerpOrderObs := []
+  denomPrices : FMap String := []     -- per base unit, raw Dec
+  perpAtom : Int := 0                 -- perpetual keeper's price of uatom, raw Dec
 deriving Inhabited
 
 namespace Snapshot
@@ -211,10 +218,12 @@ def parse (o : Json) : Snapshot :=
       { pool := jN (f p "pool"), denom := jS (f p "denom"), acc := jI (f p "acc") }
     spotOrders := (jA (f ts "spot")).map fun s =>
       { id := jN (f s "id"), owner := jS (f s "owner"), typ := jI (f s "type"), denom := jS (nth (f s "amount") 0),
-        amount := jI (nth (f s "amount") 1), escrow := jS (f s "escrow") }
+        amount := jI (nth (f s "amount") 1), escrow := jS (f s "escrow"), rate := jI (f s "rate"), base := jS (f s "base"), quote := jS (f s "quote") }
     perpOrders := (jA (f ts "perp")).map fun s =>
       { id := jN (f s "id"), owner := jS (f s "owner"), denom := jS (nth (f s "collateral") 0),
-        amount := jI (nth (f s "collateral") 1), escrow := jS (f s "escrow") } }
+        amount := jI (nth (f s "collateral") 1), escrow := jS (f s "escrow"), rate := jI (f s "rate"), long := jB (f s "long") }
+    denomPrices := pairList (f (f o "oracle") "denomPrices")
+    perpAtom := jI (f (f o "oracle") "perpAtom") }
 
 end Snapshot
 end Elys
